@@ -109,6 +109,15 @@ class Interp:
         if name == "implies":
             a, b = ops.truth(self, args[0]), ops.truth(self, args[1])
             return VBool(t=z3.Implies(a.term(), b.term()))
+        if name == "same_object":
+            a, b = self.resolve(args[0]), self.resolve(args[1])
+            if isinstance(a, VRef) and isinstance(b, VRef):
+                ra = self.hobj(a).meta.get("snapshot_of", a.ref)
+                rb = self.hobj(b).meta.get("snapshot_of", b.ref)
+                return mkbool(ra == rb)
+            return FALSE
+        if name == "events":
+            return self.new_list(list(self.path.ghost.get("events", {}).get(args[0].c, [])))
         raise Unsupported(f"spec builtin {name}")
 
     # ------------------------------------------------------------------------------------------
@@ -598,6 +607,28 @@ class Interp:
         return self.getitem(base, idx)
 
     def ev_ListComp(self, node, fr):
+        gens = node.generators
+        if (len(gens) == 2 and not gens[0].ifs and not gens[1].ifs and isinstance(node.elt, ast.Name)
+                and isinstance(gens[1].target, ast.Name) and node.elt.id == gens[1].target.id):
+            # [x for a in A for x in f(a)] : concatenation (the inner lists may be symbolic)
+            f2 = Frame(fr.module, parent=fr, cls=fr.cls, func=fr.func)
+            parts = []
+            sym = False
+            for a in self.iterate(self.ev(gens[0].iter, fr)):
+                self.assign(gens[0].target, a, f2)
+                inner = self.ev(gens[1].iter, f2)
+                if gens[1].is_async or isinstance(inner, VCoro):
+                    inner = self.await_(inner)
+                inner = self.resolve(inner)
+                if isinstance(inner, VRef) and self.hobj(inner).kind == "symlist":
+                    sym = True
+                    parts.append(inner)
+                else:
+                    parts.append(self.new_list(self.iterate(inner)))
+            if sym:
+                from . import symlist
+                return symlist.concat_lists(self, parts)
+            return self.new_list([x for p in parts for x in self.hobj(p).items])
         out = []
         self._comp(node.generators, 0, fr, lambda f: out.append(self.ev(node.elt, f)))
         return self.new_list(out)
@@ -611,6 +642,24 @@ class Interp:
         return self.new_set(out)
 
     def ev_DictComp(self, node, fr):
+        if len(node.generators) == 1 and not node.generators[0].ifs and not node.generators[0].is_async:
+            g = node.generators[0]
+            it = self.resolve(self.ev(g.iter, fr))
+            if isinstance(it, VRef) and self.hobj(it).kind == "symset":
+                o = self.hobj(it)
+                f2 = Frame(fr.module, parent=fr, cls=fr.cls, func=fr.func)
+                triples = []
+                for k, m in zip(o.items, o.meta["mem"]):
+                    if not self.path.feasible(m):
+                        continue
+                    self.assign(g.target, k, f2)
+                    try:
+                        kv = self._under(m, node.key, f2)
+                        vv = self._under(m, node.value, f2)
+                    except _InfeasibleBranch:
+                        continue
+                    triples.append((kv, m, vv))
+                return self.B.new_symdict(self, triples)
         d = self.new_dict()
         self._comp(node.generators, 0, fr, lambda f: self.dict_set(d, self.ev(node.key, f), self.ev(node.value, f)))
         return d
@@ -1471,7 +1520,17 @@ class Interp:
     def st_Return(self, node, fr):
         raise ReturnSig(self.ev(node.value, fr) if node.value is not None else NONE)
 
+    def _only_logs(self, stmts):
+        return all(isinstance(b, ast.Expr) and isinstance(b.value, ast.Call) and isinstance(b.value.func, ast.Attribute)
+                   and isinstance(b.value.func.value, ast.Name) and b.value.func.value.id == "_LOGGER" for b in stmts)
+
     def st_If(self, node, fr):
+        if node.body and self._only_logs(node.body) and self._only_logs(node.orelse):
+            # both arms only log (dropped): evaluate the test for its raise points, do not fork
+            ops.truth(self, self.ev(node.test, fr))
+            for b in list(node.body) + list(node.orelse):
+                self.note_log_args(b.value, fr)
+            return
         if self.cond(self.ev(node.test, fr), f"if@{node.lineno}"):
             self.exec_block(node.body, fr)
         else:
@@ -1601,11 +1660,22 @@ class Interp:
 
     def st_For(self, node, fr):
         it = self.ev(node.iter, fr)
+        if all(isinstance(b, ast.Expr) and isinstance(b.value, ast.Call) and isinstance(b.value.func, ast.Attribute)
+               and isinstance(b.value.func.value, ast.Name) and b.value.func.value.id == "_LOGGER" for b in node.body) and not node.orelse:
+            for b in node.body:
+                self.note_log_args(b.value, fr)
+            return      # the body only logs (dropped): the loop has no effect
         if isinstance(node, ast.AsyncFor):
             it = self.await_(it)
         try:
             items = self.iterate(it, node=node)
         except Unsupported:
+            r = self.resolve(it)
+            if isinstance(r, VRef) and self.hobj(r).kind == "symlist":
+                n = self.hobj(r).meta["len"]
+                if n.c == 0 or (n.c is None and self.path.known(n.as_int() <= 0)):
+                    self.exec_block(node.orelse, fr)
+                    return
             lc = self.contracts.loop_contract(self, fr, node) if self.contracts is not None else None
             if lc is None:
                 raise
